@@ -79,7 +79,7 @@ Definition rinv (s : rt) : Prop :=
 
 Definition rop_ok (o : rop) : Prop :=
   match o with
-  | RReplace _ _ ex => 0 < ex          (* the closing period 3*PTO is positive *)
+  | RReplace _ _ ex _ => 0 < ex        (* the closing period 3*PTO is positive *)
   | RAdvance d => 0 <= d
   | _ => True
   end.
@@ -89,7 +89,7 @@ Lemma raw_cover o s : rop_ok o ->
   (forall k h, In (k, h) (rt_handlers (fst (rt_step_raw o s))) -> closed_kind h ->
      exists t ids, In (t, ids) (rt_timers (fst (rt_step_raw o s))) /\ In k ids).
 Proof.
-  intros Hok Hc. destruct o as [c n|cd nw n|c|ids loc ex|d|t n|t|c]; simpl.
+  intros Hok Hc. destruct o as [c n|cd nw n|c|ids loc ex ps|d|t n|t|c sz]; simpl.
   - destruct (hget c (rt_handlers s)); simpl; [assumption|]. intros k h Hin Hcl.
     apply hset_in in Hin as [[-> ->]|[Hin _]]; [destruct Hcl|eauto].
   - destruct (hget cd (rt_handlers s)); simpl; [assumption|]. intros k h Hin Hcl.
@@ -110,7 +110,7 @@ Lemma raw_timers o s : rop_ok o ->
   forall t ids, In (t, ids) (rt_timers (fst (rt_step_raw o s))) ->
     In (t, ids) (rt_timers s) \/ rt_now s < t.
 Proof.
-  intros Hok Ht. destruct o as [c n|cd nw n|c|ids loc ex|d|t0 n|t0|c]; simpl; auto.
+  intros Hok Ht. destruct o as [c n|cd nw n|c|ids loc ex ps|d|t0 n|t0|c sz]; simpl; auto.
   - destruct (hget c (rt_handlers s)); simpl; auto.
   - destruct (hget cd (rt_handlers s)); simpl; auto.
   - intros t i Hin. apply in_app_or in Hin as [Hin|[Heq|[]]]; [auto|]. inversion Heq; subst. simpl in Hok. right. lia.
@@ -169,7 +169,7 @@ Definition named (o : rop) (c : cid) : Prop :=
   match o with
   | RAdd k _ => k = c
   | RAddWith a b _ => a = c \/ b = c
-  | RReplace ids _ _ => In c ids
+  | RReplace ids _ _ _ => In c ids
   | _ => False
   end.
 
@@ -180,7 +180,7 @@ Proof.
   destruct (fire_spec _ _ _ _ _ Ef) as (_ & F2 & _). intros Hin. destruct (F2 _ _ Hin) as [Hin1 _]. clear Hin F2 Ef.
   assert (Hkey : forall x y, In (x, y) (rt_handlers s) -> In x (map fst (rt_handlers s))).
   { intros x y Hx. apply in_map_iff. exists (x, y). auto. }
-  destruct o as [c n|cd nw n|c|ids loc ex|d|t n|t|c]; simpl in E1.
+  destruct o as [c n|cd nw n|c|ids loc ex ps|d|t n|t|c sz]; simpl in E1.
   - destruct (hget c (rt_handlers s)); inversion E1; subst; simpl in *; [eauto|].
     apply hset_in in Hin1 as [[-> _]|[Hin1 _]]; [right; reflexivity|eauto].
   - destruct (hget cd (rt_handlers s)); inversion E1; subst; simpl in *; [eauto|].
@@ -222,24 +222,50 @@ Proof.
   - split; [intros _; exists O; reflexivity|reflexivity].
 Qed.
 
-Theorem backoff_power_of_two s c j :
+Local Arguments Z.mul : simpl never.
+Local Arguments Z.add : simpl never.
+
+(** closed_conn.go: CONNECTION_CLOSE is retransmitted for packet n iff n is a power of two AND the
+    retransmission stays within three times the bytes received for the closed connection *)
+Theorem backoff_power_of_two s c j size :
   hget c (rt_handlers s) = Some (HLocal j) ->
-  let v := match zget j (rt_counters s) with Some v => v | None => 0 end in
-  0 <= v -> v + 1 < 4294967296 ->
-  let r := snd (rt_step (RDeliver c) s) in
-  rr_kind r = 2 /\ (rr_sent r = 1 <-> exists k : nat, v + 1 = 2 ^ Z.of_nat k) /\ (rr_sent r = 0 \/ rr_sent r = 1).
+  let l := match zget j (rt_locals s) with Some v => v | None => mkL 0 0 0 0 end in
+  0 <= l_cnt l -> l_cnt l + 1 < 4294967296 ->
+  let r := snd (rt_step (RDeliver c size) s) in
+  rr_kind r = 2 /\
+  (rr_sent r = 1 <-> (exists k : nat, l_cnt l + 1 = 2 ^ Z.of_nat k) /\
+                     l_sent l + l_psize l <= 3 * (l_recv l + size)) /\
+  (rr_sent r = 0 \/ rr_sent r = 1).
 Proof.
-  intros Hg v Hv Hlt. unfold rt_step. simpl rt_step_raw. rewrite Hg.
-  destruct (fire _ _ _) as [tm hs]. simpl. fold v.
-  rewrite Z.mod_small by lia. split; [reflexivity|].
-  destruct (v + 1) as [|p|p] eqn:Ep; try lia. simpl popcount.
-  destruct (Z.eqb_spec (popcount_pos p) 1) as [H1|H1]; split; auto.
-  - split; [intros _; apply popcount_pos_one; assumption|reflexivity].
-  - split; [discriminate|]. intros Hk. apply popcount_pos_one in Hk. contradiction.
+  intros Hg l Hv Hlt. unfold rt_step. simpl rt_step_raw. rewrite Hg.
+  destruct (fire _ _ _) as [tm hs]. simpl. fold l.
+  rewrite Z.mod_small by lia. split; [reflexivity|]. unfold closedConnAmplificationFactor.
+  destruct (l_cnt l + 1) as [|p|p] eqn:Ep; try lia. simpl popcount.
+  destruct (Z.eqb_spec (popcount_pos p) 1) as [H1|H1]; simpl.
+  - destruct (Z.ltb_spec (3 * (l_recv l + size)) (l_sent l + l_psize l)) as [Hb|Hb]; simpl; split; auto.
+    + split; [discriminate|]. intros [_ Hle]. lia.
+    + split; [intros _; split; [apply popcount_pos_one; assumption|lia]|reflexivity].
+  - split; auto. split; [discriminate|]. intros [Hk _]. apply popcount_pos_one in Hk. contradiction.
 Qed.
 
-Theorem remote_closed_silent s c :
-  hget c (rt_handlers s) = Some HRemote -> rr_sent (snd (rt_step (RDeliver c) s)) = 0.
+(** the stand-in never sends more than three times what it received (RFC 9000 10.2.1) *)
+Theorem standin_amplification_step s c j size :
+  hget c (rt_handlers s) = Some (HLocal j) -> 0 <= size ->
+  let l := match zget j (rt_locals s) with Some v => v | None => mkL 0 0 0 0 end in
+  0 <= l_psize l -> l_sent l <= 3 * l_recv l ->
+  match zget j (rt_locals (fst (rt_step (RDeliver c size) s))) with
+  | Some l' => l_sent l' <= 3 * l_recv l' /\ l_psize l' = l_psize l
+  | None => False
+  end.
+Proof.
+  intros Hg Hs l Hp Hinv. unfold rt_step. simpl rt_step_raw. rewrite Hg.
+  destruct (fire _ _ _) as [tm hs]. simpl. rewrite Z.eqb_refl. fold l. simpl. unfold closedConnAmplificationFactor.
+  destruct (popcount _ =? 1); simpl; [|split; [lia|reflexivity]].
+  destruct (Z.ltb_spec (3 * (l_recv l + size)) (l_sent l + l_psize l)); simpl; split; try reflexivity; lia.
+Qed.
+
+Theorem remote_closed_silent s c size :
+  hget c (rt_handlers s) = Some HRemote -> rr_sent (snd (rt_step (RDeliver c size) s)) = 0.
 Proof.
   intros Hg. unfold rt_step. simpl rt_step_raw. rewrite Hg. destruct (fire _ _ _). reflexivity.
 Qed.
